@@ -181,9 +181,10 @@ func shuffled(r *common.Rand, n int) []int {
 const boundRounds = 16
 
 type hgen struct {
-	g *common.Gen
-	r *common.Rand
-	t *topo
+	g    *common.Gen
+	r    *common.Rand
+	t    *topo
+	ever []edge // every link of the initial topology
 }
 
 // one fair round: every directed edge of the current topology once, in random order, with a few
@@ -284,8 +285,37 @@ func (h *hgen) reorder() {
 	h.g.Op("reply %d %d last", a, b)
 }
 
+// every link of the topology's history (the generator only ever re-adds links that existed) is a
+// bridge: then the number of routers bounds the rounds to convergence (no counting to infinity)
+func (h *hgen) forest() bool {
+	parent := make([]int, h.t.n)
+	for i := range parent {
+		parent[i] = i
+	}
+	var find func(int) int
+	find = func(x int) int {
+		if parent[x] != x {
+			parent[x] = find(parent[x])
+		}
+		return parent[x]
+	}
+	for _, e := range h.ever {
+		a, b := find(e.a), find(e.b)
+		if a == b {
+			return false
+		}
+		parent[a] = b
+	}
+	return true
+}
+
 func (h *hgen) converge() {
-	h.rounds(boundRounds)
+	k := boundRounds
+	if h.forest() && h.t.n < k {
+		k = h.t.n
+		h.g.Stat("converge-forest-bound")
+	}
+	h.rounds(k)
 	h.g.Op("check")
 	if h.r.Chance(1, 3) {
 		// stable links: more than a dead interval of heartbeats and a deadcheck sweep change nothing
@@ -401,6 +431,7 @@ func (h *hgen) incident(x int) []edge {
 
 func (h *hgen) history(t *topo, cycles int) {
 	h.t = t
+	h.ever = t.edges()
 	h.g.Op("new %d", t.n)
 	h.g.Stat(fmt.Sprintf("routers-%d", t.n))
 	for _, e := range t.edges() {
